@@ -86,6 +86,14 @@ func c07Specs(c *run.Ctx) []built {
 		spec.Spec{Name: "c07-spaces-patterns", Base: "new", Calls: []C{opt("AddSpaceWhenStrippingTag", true), {Op: "AllowNoAttrs", Scope: "matching", OnRe: reMy}, attrsPat([]string{"id"}, `^[a-z]+$`, reMy),
 			els("b", "span"), attrsGlob([]string{"title"}, "")}},
 		spec.Spec{Name: "c07-spaces-ugc", Base: "ugc", Calls: []C{opt("AddSpaceWhenStrippingTag", true)}},
+		spec.Spec{Name: "c07-bare-after-rules", Base: "new", Calls: []C{attrsOn([]string{"id"}, "", "a", "span"), attrsOn([]string{"title"}, "Paragraph", "a"), attrsPat([]string{"id"}, "", reMy),
+			{Op: "AllowNoAttrs", Scope: "on", On: []string{"a", "span"}}, {Op: "AllowNoAttrs", Scope: "matching", OnRe: reMy}, els("a", "span")}},
+		spec.Spec{Name: "c07-bare-builder-after-rules", Base: "new", Calls: []C{attrsOn([]string{"id"}, `^[a-z]+$`, "a"), {Op: "AllowAttrs", Names: []string{"title"}, NoAttrs: true, Scope: "on", On: []string{"a"}}}},
+		spec.Spec{Name: "c07-url-widened", Base: "new", Calls: []C{attrsOn([]string{"href"}, "", "a"), attrsOn([]string{"src"}, "", "img"),
+			{Op: "AllowURLSchemeWithCustomPolicy", Names: []string{"http"}, Fn: "never"}, {Op: "AllowURLSchemeWithCustomPolicy", Names: []string{"ftp"}, Fn: "never"},
+			{Op: "AllowURLSchemes", Names: []string{"HTTP", "ftp"}}}},
+		spec.Spec{Name: "c07-url-two-checks", Base: "new", Calls: []C{attrsOn([]string{"href"}, "", "a"),
+			{Op: "AllowURLSchemeWithCustomPolicy", Names: []string{"http"}, Fn: "never"}, {Op: "AllowURLSchemeWithCustomPolicy", Names: []string{"http"}, Fn: "always"}}},
 	)
 	out = append(out, specsByName("ugc", "cmd-ugc", "cmd-email", "links", "media", "attrs", "pattern", "pattern-bare", "foreign", "bpbr", "skipmod")...)
 	return buildAll(out)
